@@ -45,10 +45,12 @@ Definition mkobs (rm : rmachine) (r : outcome) (c : cfg) : obs :=
 
 Definition new_engine (c : cfg) : cfg := set_depth (set_locked (set_queue c []) false) 0.
 
-(* the registry of a clone (__setstate__): machine, model and every listener attached so far are
-   resolved in one round, exactly as a constructor does, and the engine is chosen after that *)
-Definition clone_md (md : mdecl) : mdecl :=
-  with_erounds (with_rounds md [uniq [] (concat (md_rounds md))]) 1.
+(* the registry of a clone (__setstate__, since fix D30): the listeners are attached again the way they were
+   attached to the original - the constructor's round (machine, model, constructor listeners; the engine is
+   chosen after it), then one round per add_listener call: the resolution rounds of the original.
+   (Before that repair every listener attached so far was resolved in ONE round with machine and model,
+   [with_erounds (with_rounds md [uniq [] (concat (md_rounds md))]) 1]: guards regrouped on the clone.) *)
+Definition clone_md (md : mdecl) : mdecl := md.
 
 (* a new machine object built by the constructor call of the scenario: only the constructor's own
    providers (the first resolution round) are attached to it; listeners that were added to the previous
